@@ -261,6 +261,9 @@ def gen_stream(ch):
                 nb = gen_elements(ch, set(), 1)[0]
                 if old[0] not in [x[0] for x in b]:
                     b.append((old[0],) + nb[1:])
+        d_only = bool(k) and bool(elems_all) and ch.bool(1, 4)
+        if d_only:
+            b = []           # a dictionary message that adds sequences over elements defined earlier: no Table B entry at all
         elems_all += [x[0] for x in b if x[0] not in elems_all]
         d, reponly = gen_sequences(ch, used, elems_all, [s for s in seqs_all], 0 if only_redefine else ch.int(0, 4))
         REPONLY_ALL.update(reponly)
@@ -269,6 +272,13 @@ def gen_stream(ch):
             if cand:
                 sid = ch.choice(cand)
                 d.append((sid, 'SEQ REDEFINED', [ch.choice(elems_all) for _ in range(ch.int(1, 3))]))
+        if d_only and not d:
+            for _try in range(20):
+                sid = 300000 + ch.int(48, 63) * 1000 + ch.int(1, 255)
+                if sid not in used:
+                    break
+            used.add(sid)
+            d.append((sid, 'SEQ IN A MESSAGE WITHOUT TABLE B ENTRIES', [ch.choice(elems_all) for _ in range(ch.int(1, 3))]))
         # sequences that an earlier definition message used before they were defined are defined now
         for f_id in forced_next:
             d.append((f_id, 'SEQ DEFINED AFTER ITS USER', [ch.choice(elems_all) for _ in range(ch.int(1, 2))]))
@@ -312,7 +322,12 @@ def gen_stream(ch):
                 # the template of an earlier data message again, now under the newer definitions
                 ids = list(ch.choice(datas).ids)
             for _ in range(ch.int(0, 2) if ids else ch.int(1, 5)):
-                what = ch.weighted([(3, 'e'), (3, 's'), (1, 'std'), (1, 'rep')])
+                what = ch.weighted([(3, 'e'), (3, 's'), (1, 'std'), (1, 'rep'), (1, 'deep')])
+                if what == 'deep' and known_e:
+                    # replications nested three deep, spelled the WMO way (every body listed), and descriptors after them
+                    e1, e2, e3, e4 = [ch.choice(known_e) for _ in range(4)]
+                    ids += [105000, 31001, e1, 103002, e2, 101002, e3, e4] if ch.bool() else [105002, e1, 103000, 31001, e2, 101002, e3, e4]
+                    continue
                 if what == 's' and known_s:
                     s = ch.choice(known_s)
                     ids.append(s)
@@ -438,6 +453,11 @@ def check_stream(sc):
     out.classes.append('another_stream_scanned_in_between')
     if any(len(td.a) > 1 for td in sc.defs):
         out.classes.append('several_table_a_entries')
+    if any(not td.b and td.d for td in sc.defs):
+        out.classes.append('definition_message_with_table_d_entries_only')
+    if any(len(dm.ids) >= 8 and any(dm.ids[i:i + 2] == [101002, dm.ids[i + 1]] and dm.ids[i - 2] // 1000 == 103 for i in range(2, len(dm.ids) - 1))
+           for dm in sc.datas):
+        out.classes.append('replications_nested_three_deep')
     if any(td.spelling for td in sc.defs):
         out.classes.append('dictionary_layout_in_another_spelling')
     out.classes.append('scan_without_wiring')
